@@ -99,7 +99,7 @@ theorem spec_graft_prefix (P p : Path) (sub : FS) (fs : FS) (r : Path) :
 /-- `Cursor::upsert` of kind Tree with the id of a stored tree -/
 theorem cursorUpsert_tree_spec {ed : Ed} (hinv : Inv ed) {pfx : Path} {t : List Entry}
     (hP : aget pfx ed.trees = some t) {p : Path} (hp : ValidPath p) {id : Bytes} {ts : List Entry}
-    (hst : aget id ed.store = some ts) (hne : id ≠ emptyTreeId) :
+    (hst : Grafts ed.store id ts) (hne : id ≠ emptyTreeId) :
     ∃ ed', cursorUpsert ed pfx p 0o040000 id = .ok ed' ∧ Inv ed' ∧ ed'.store = ed.store ∧
       (aget pfx ed'.trees).isSome = true ∧
       abs ed' = Spec.C04.graft (pfx ++ p) (absStore ed.store ts) (abs ed) := by
@@ -208,7 +208,7 @@ theorem applyF_spec {hash : List Entry → Bytes} (hh : HashOk hash) {S0 : Assoc
       | none => simp [hP] at hcached
       | some t =>
         have hs2 : s.2 = some pfx := by rw [← hg.cursor_eq, hcur]
-        rcases hk with hk | ⟨hmode, hne, ts, hts⟩
+        rcases hk with hk | ⟨hmode, hne, ts⟩
         · obtain ⟨ed', h1, h2, h3, h4, h5⟩ := cursorUpsert_spec hg.inv.inv hP hp (id := id) hk
           refine ⟨⟨ed', some pfx⟩, by simp [applyF, hcur, h1],
             ⟨⟨h2, h3 ▸ hg.inv.hashed, h3 ▸ hg.inv.canon⟩, h3 ▸ hg.mono, ?_, ?_, ?_⟩, by rw [hcur] at hrest; exact hrest⟩
@@ -218,19 +218,36 @@ theorem applyF_spec {hash : List Entry → Bytes} (hh : HashOk hash) {S0 : Assoc
             simp only [Option.some.injEq] at h'
             rw [← h']; exact h4
         · subst hmode
-          have hst := hg.mono _ _ hts
-          obtain ⟨ed', h1, h2, h3, h4, h5⟩ := cursorUpsert_tree_spec hg.inv.inv hP hp hst hne
-          refine ⟨⟨ed', some pfx⟩, by simp [applyF, hcur, h1],
-            ⟨⟨h2, h3 ▸ hg.inv.hashed, h3 ▸ hg.inv.canon⟩, h3 ▸ hg.mono, ?_, ?_, ?_⟩, by rw [hcur] at hrest; exact hrest⟩
-          · simp only [specF, hs2, isTree_040000, if_true, hts]
-            rw [h5, hg.abs_eq]
-            congr 1
-            funext q
-            exact lookup_store_mono hS0 hg.mono q ts [] (storeOk_closed hS0 hts)
-          · simp only [specF, hs2]
-          · intro pfx' h'
-            simp only [Option.some.injEq] at h'
-            rw [← h']; exact h4
+          rcases ts with hnull | ⟨ts, hts⟩
+          · subst hnull
+            obtain ⟨ed', h1, h2, h3, h4, h5⟩ :=
+              cursorUpsert_tree_spec hg.inv.inv hP hp (ts := []) (Or.inl ⟨rfl, rfl⟩) hne
+            refine ⟨⟨ed', some pfx⟩, by simp [applyF, hcur, h1],
+              ⟨⟨h2, h3 ▸ hg.inv.hashed, h3 ▸ hg.inv.canon⟩, h3 ▸ hg.mono, ?_, ?_, ?_⟩, by rw [hcur] at hrest; exact hrest⟩
+            · simp only [specF, hs2, isTree_040000, if_true, hS0.nonull]
+              rw [h5, hg.abs_eq]
+              congr 1
+              funext q
+              exact lookupIn_nil _ _ _
+            · simp only [specF, hs2]
+            · intro pfx' h'
+              simp only [Option.some.injEq] at h'
+              rw [← h']; exact h4
+          · have hst := hg.mono _ _ hts
+            have hnn : id ≠ nullId := fun e => by rw [e, hg.inv.inv.store.nonull] at hst; cases hst
+            obtain ⟨ed', h1, h2, h3, h4, h5⟩ :=
+              cursorUpsert_tree_spec hg.inv.inv hP hp (Or.inr ⟨hnn, hst⟩) hne
+            refine ⟨⟨ed', some pfx⟩, by simp [applyF, hcur, h1],
+              ⟨⟨h2, h3 ▸ hg.inv.hashed, h3 ▸ hg.inv.canon⟩, h3 ▸ hg.mono, ?_, ?_, ?_⟩, by rw [hcur] at hrest; exact hrest⟩
+            · simp only [specF, hs2, isTree_040000, if_true, hts]
+              rw [h5, hg.abs_eq]
+              congr 1
+              funext q
+              exact lookup_store_mono hS0 hg.mono q ts [] (storeOk_closed hS0 hts)
+            · simp only [specF, hs2]
+            · intro pfx' h'
+              simp only [Option.some.injEq] at h'
+              rw [← h']; exact h4
   | cRemove p =>
     simp only [ValidF] at hv
     obtain ⟨hc, hp, hrest⟩ := hv
